@@ -140,10 +140,11 @@ var optabSpecs = []optabSpec{
 		"ComparisonIn":           {"jsonata.in(L, R)"},
 		"ComparisonEqual":        {"jsonata.eq(L, R)"},
 		"ComparisonNotEqual":     {"!jsonata.eq(L, R)"},
-		"ComparisonLess":         {"jsonata.lt(L, R)", "!jsonata.lte(R, L)"},
-		"ComparisonLessEqual":    {"jsonata.lte(L, R)", "!jsonata.lt(R, L)"},
-		"ComparisonGreater":      {"!jsonata.lte(L, R)", "jsonata.lt(R, L)"},
-		"ComparisonGreaterEqual": {"!jsonata.lt(L, R)", "jsonata.lte(R, L)"},
+		// lte(a, b) may be spelled out as what it is defined to be: lt(a, b) || eq(a, b)
+		"ComparisonLess":         {"jsonata.lt(L, R)", "!jsonata.lte(R, L)", "!(jsonata.lt(R, L) || jsonata.eq(R, L))"},
+		"ComparisonLessEqual":    {"jsonata.lte(L, R)", "!jsonata.lt(R, L)", "(jsonata.lt(L, R) || jsonata.eq(L, R))"},
+		"ComparisonGreater":      {"!jsonata.lte(L, R)", "jsonata.lt(R, L)", "!(jsonata.lt(L, R) || jsonata.eq(L, R))"},
+		"ComparisonGreaterEqual": {"!jsonata.lt(L, R)", "jsonata.lte(R, L)", "(jsonata.lt(R, L) || jsonata.eq(R, L))"},
 	}},
 	{fn: "jsonata.evalBooleanOperator", enum: "BooleanOperator", want: map[string][]string{
 		"BooleanAnd": {"(jlib.Boolean(L) && jlib.Boolean(R))"},
